@@ -31,6 +31,16 @@ def mutate_expectation(case):
     """Binding self-test: flip the expectation so that a harness that compares
     anything at all must reject the case."""
     c = json.loads(json.dumps(case))
+    if c.get("ops") is not None and "expect" not in c:
+        # history cases (cachehist / attrhist): corrupt what the model says is observable after the last determined operation
+        for op in reversed(c["ops"]):
+            if isinstance(op.get("obs"), dict) and len(op["obs"].get("loads") or []) == 2:
+                op["obs"]["served"] = op["obs"].get("served", 0) + 5
+                return c
+            if "want" in op and not op.get("any") and not op.get("flood"):
+                op["want"] = list(op.get("want") or []) + [90, 81]
+                return c
+        return None
     e = c.get("expect", {})
     if e.get("anyoutcome"):
         # nothing is compared in such cases except "no panic / no hang / engine usable": simulate a panic
@@ -187,7 +197,10 @@ def run_s2c(prop, tier, seed, opts):
                         for i, l in enumerate(obs_lines[:200]):
                             o = json.loads(l)
                             if i == 7:
-                                o["out"] = (o.get("out") or []) + [60]
+                                if st["trace"].get("mutate"):
+                                    st["trace"]["mutate"](o)
+                                else:
+                                    o["out"] = (o.get("out") or []) + [60]
                             f.write(json.dumps(o) + "\n")
                     c2, r2, _ = V.validate_trace(scratch, st["trace"]["module"], st["trace"]["cfg"], mut, sub="trace-self")
                     if 8 not in r2:
@@ -230,11 +243,17 @@ def run_s2c(prop, tier, seed, opts):
             if opts.get("selftest") or tier == "thorough":
                 sample_lines = list(case_lines.values())[:40]
                 mp = scratch.path("mut.ndjson")
+                nmut = 0
                 with open(mp, "w") as f:
                     for l in sample_lines:
-                        f.write(json.dumps(mutate_expectation(json.loads(l))) + "\n")
-                mres = V.replay(harness, mp, scratch.path("mut.res"), nworkers=4)
-                if any(r["pass"] for r in mres):
+                        mc = mutate_expectation(json.loads(l))
+                        if mc is not None:
+                            nmut += 1
+                            f.write(json.dumps(mc) + "\n")
+                if nmut == 0:
+                    raise V.Broken("binding self-test: no case of stage %s could be corrupted" % st["name"])
+                mres = V.replay(harness, mp, scratch.path("mut.res"), nworkers=4, cmd=st.get("cmd", "replay"), limit=st.get("limit", "5s"))
+                if len(mres) != nmut or any(r["pass"] for r in mres):
                     raise V.Broken("binding self-test: a corrupted expectation was accepted in stage %s" % st["name"])
                 stage_info[-1]["selftest_rejected"] = len(mres)
         # triage
